@@ -155,7 +155,7 @@ def main():
     all_stubs = []
     try:
         with shv.Scratch(keep=a.keep) as sc:
-            for uname in cfg['units']:
+            for uname in cfg['units'] + (cfg.get('units_thorough', []) if a.tier == 'thorough' else []):
                 unit = P.UNITS[uname]
                 sc.refresh()
                 injected.clear()
@@ -240,17 +240,32 @@ def main():
                     unit_reports += r.get('reports', [])
                     for f in r.get('scan', []):
                         files_scanned.add(f)
-            # counterexample replay against the real code, while the scratch copy still exists
+            # counterexample replay against the real code, while the scratch copy still exists:
+            # first the verifier's concrete values (needs the injected harness), then - on the pristine
+            # tree again - the native run of the real code
+            todo = []
             for obl, info in sorted(failed.items()):
                 hook = P.REPLAYERS.get(obl)
                 if not hook or any(k.get('obligation') == obl for k in known):
                     continue
+                vals = None
                 try:
                     unit = P.UNITS[info['unit']] if info.get('unit') else None
-                    vals = None
                     if unit and unit['engine'] == 'kani':
+                        sc.refresh()
+                        for inj in unit['inject']:
+                            sc.inject(inj[0], inj[1], *(inj[2:4]))
+                        for rel, pat, rep, mn in unit.get('rewrite', []):
+                            sc.rewrite(rel, pat, rep, mn)
                         pb = R.kani_playback(sc, unit, info['harness'])
                         vals = pb.get(info['desc'])
+                except Exception as e:
+                    replays_extra[obl] = replays_extra.get(obl, '') + '\nconcrete playback failed: %r\n' % (e,)
+                todo.append((obl, info, hook, vals))
+            if todo:
+                sc.refresh()
+            for obl, info, hook, vals in todo:
+                try:
                     replay_texts[obl] = hook({'scratch': sc}, obl, info, vals)
                 except Exception as e:  # replay is best effort; its failure never changes the verdict
                     replays_extra[obl] = replays_extra.get(obl, '') + '\nreplay attempt failed: %r\n' % (e,)
